@@ -74,6 +74,12 @@ def build(ty, v):
         return np.array(v, dtype=np.int64 if ty[0] == "i" else np.float64).reshape(len(v), -1)
     if ty in ("list[int[]]", "list[real[]]"):
         return [build(ty[5:-1], x) for x in v]
+    if ty == "coo":
+        from vectorizers.coo_utils import CooArray
+        if isinstance(v, dict):
+            v = [v[f] for f in ("row", "col", "val", "key", "ind", "min", "depth")]
+        dts = (np.int32, np.int32, np.float32, np.int64, np.int64, np.int64, np.int64)
+        return CooArray(*[np.array([x for x in a if not isinstance(x, str)], dtype=dt) for a, dt in zip(v, dts)])
     if ty == "str":
         return v if isinstance(v, str) else "".join(chr(max(0, min(int(c), 0x10FFFF))) for c in v if not isinstance(c, str))
     if ty == "list[str]":
@@ -156,6 +162,8 @@ def jsonable(v):
     if isinstance(v, (np.bool_,)):
         return bool(v)
     if isinstance(v, dict):
+        if v and all(isinstance(k, str) and k.isidentifier() and k.upper() == k for k in v):   # ghost / module-constant bindings
+            return {k: jsonable(x) for k, x in v.items()}
         return [[jsonable(k), jsonable(x)] for k, x in v.items()]
     if isinstance(v, (list, tuple)):
         return [jsonable(x) for x in v]
@@ -168,11 +176,23 @@ def run_case(qn, c, macros, args):
     """Execute the real function on args.  Returns None if nothing wrong, else a failure dict."""
     fn = real_function(qn)
     con = cspec.Contract(c, macros)
-    if not con.check_requires(args):
-        return "precondition-false"
+    # "__consts__": module constants the contract treats as symbolic (patched into the function's module for this call);
+    # "__ghost__": values for the contract's ghost parameters (the contract must hold for each of them)
+    args = dict(args)
+    consts = args.pop("__consts__", {})
+    ghosts = [(c.get("ghost_env") or (lambda g: g))(g) for g in (args.pop("__ghost__", None) or [{}])]
+    con.extra = dict(consts)
+    for g in ghosts:
+        con.extra = dict(consts, **g)
+        if not con.check_requires(args):
+            return "precondition-false"
     call_args = copy.deepcopy(args)
     old_args = copy.deepcopy(args)
+    mod = sys.modules[fn.__module__]
+    saved = {k: getattr(mod, k) for k in consts}
     try:
+        for k, v in consts.items():
+            setattr(mod, k, v)
         with np.errstate(all="ignore"):
             result = fn(**call_args)
     except FAIL_EXC as ex:
@@ -183,9 +203,15 @@ def run_case(qn, c, macros, args):
         if type(ex).__name__ in c.get("may_raise", []) or not c.get("no_raise"):
             return None
         return dict(kind="exception", exception=type(ex).__name__, message=str(ex)[:200], where=[])
-    bad, skipped = con.failed_ensures(call_args, old_args, result)
-    if bad:
-        return dict(kind="postcondition", failed=[dict(index=i, text=t) for i, t in bad], result=jsonable(result))
+    finally:
+        for k, v in saved.items():
+            setattr(mod, k, v)
+    for g in ghosts:
+        con.extra = dict(consts, **g)
+        bad, skipped = con.failed_ensures(call_args, old_args, result)
+        if bad:
+            return dict(kind="postcondition", failed=[dict(index=i, text=t) for i, t in bad], result=jsonable(result),
+                        ghost={k: jsonable(v) for k, v in g.items()})
     return None
 
 
@@ -291,7 +317,7 @@ def main(argv):
         c = contracts[case["function"]]
         pt = case.get("types") or c["params"]
         fixed = c.get("replay_fixed", {})
-        args = {k: (fixed[k] if k in fixed else build(pt[k], v)) for k, v in case["args"].items()}
+        args = {k: (v if k.startswith("__") else fixed[k] if k in fixed else build(pt[k], v)) for k, v in case["args"].items()}
         f = run_case(case["function"], dict(c, params=pt), macros, args)
         print("replay of %s on %s:" % (case["function"], json.dumps(case["args"])))
         print("  outcome:", json.dumps(f))
